@@ -287,6 +287,24 @@ theorem drain_sorted {lt : Nat → Nat → Bool} (wo : WeakOrd lt) (d : Nat) (hd
       subst this; simp [drain, top?]
 
 
+/-- **`sanity_check()` characterised** (as a function of `heap_`): true exactly in heap order -/
+theorem sanity_iff (lt : Nat → Nat → Bool) (d : Nat) (h : Array Nat) : sanity lt d h = true ↔ HeapA lt d h := by
+  unfold sanity HeapA HeapOrd
+  simp only [List.all_eq_true, List.mem_range, Bool.or_eq_true, beq_iff_eq, Bool.not_eq_eq_eq_not, Bool.not_true]
+  constructor
+  · intro hs i hi hi0
+    have hpi : parent d i < i := parent_lt hi0
+    rcases hs i hi with h0 | h1
+    · omega
+    · simpa [atParent, Array.getElem?_eq_getElem hi, Array.getElem?_eq_getElem (show parent d i < h.size by omega)] using h1
+  · intro hh i hi
+    by_cases hi0 : i = 0
+    · exact Or.inl hi0
+    · right
+      have hpi : parent d i < i := parent_lt (by omega)
+      have := hh i hi (by omega)
+      simpa [atParent, Array.getElem?_eq_getElem hi, Array.getElem?_eq_getElem (show parent d i < h.size by omega)] using this
+
 /-- the comparators of the harness: an external priority table, ascending or descending -/
 theorem weakOrd_prio (prio : Nat → Int) : WeakOrd (fun a b => decide (prio a < prio b)) :=
   { irrefl := by simp, trans := by simp; omega, negTrans := by simp; omega }
